@@ -526,6 +526,8 @@ func (db *MultiBucketBackend) deleteObjectLocked(bucketName, objectName string) 
 		return err
 	}
 
+	removeEmptyParents(db.bucketFs, fullPath, bucketName)
+
 	return nil
 }
 
